@@ -12,23 +12,29 @@ Definition pgH : nat := Z.to_nat pq_szEventPageHeader.
 
 (* wp_data: the payload bytes written so far (Meta.EndOff = pgH + length); wp_next: the link in the page header
    bytes (SetNext); -1 = a link left behind by a failed flush (its target id was taken back) *)
-Record wpage := { wp_id : Z; wp_first : Z; wp_last : Z; wp_off : nat; wp_dirty : bool; wp_next : Z; wp_data : list Z }.
+(* wp_disk (ghost, not part of the implementation's state): the payload as it was last written to the file for this
+   page object; None = never written *)
+Record wpage := { wp_id : Z; wp_first : Z; wp_last : Z; wp_off : nat; wp_dirty : bool; wp_next : Z; wp_data : list Z;
+                  wp_disk : option (list Z) }.
 
 Definition fresh_wpage : wpage :=
-  {| wp_id := 0; wp_first := 0; wp_last := 0; wp_off := 0; wp_dirty := false; wp_next := 0; wp_data := [] |}.
+  {| wp_id := 0; wp_first := 0; wp_last := 0; wp_off := 0; wp_dirty := false; wp_next := 0; wp_data := []; wp_disk := None |}.
 
 Definition set_data (p : wpage) (d : list Z) : wpage :=
   {| wp_id := wp_id p; wp_first := wp_first p; wp_last := wp_last p; wp_off := wp_off p; wp_dirty := wp_dirty p;
-     wp_next := wp_next p; wp_data := d |}.
+     wp_next := wp_next p; wp_data := d; wp_disk := wp_disk p |}.
 Definition set_dirty (v : bool) (p : wpage) : wpage :=
   {| wp_id := wp_id p; wp_first := wp_first p; wp_last := wp_last p; wp_off := wp_off p; wp_dirty := v;
-     wp_next := wp_next p; wp_data := wp_data p |}.
+     wp_next := wp_next p; wp_data := wp_data p; wp_disk := wp_disk p |}.
 Definition set_id (v : Z) (p : wpage) : wpage :=
   {| wp_id := v; wp_first := wp_first p; wp_last := wp_last p; wp_off := wp_off p; wp_dirty := wp_dirty p;
-     wp_next := wp_next p; wp_data := wp_data p |}.
+     wp_next := wp_next p; wp_data := wp_data p; wp_disk := wp_disk p |}.
 Definition set_next (v : Z) (p : wpage) : wpage :=
   {| wp_id := wp_id p; wp_first := wp_first p; wp_last := wp_last p; wp_off := wp_off p; wp_dirty := wp_dirty p;
-     wp_next := v; wp_data := wp_data p |}.
+     wp_next := v; wp_data := wp_data p; wp_disk := wp_disk p |}.
+Definition set_disk (v : option (list Z)) (p : wpage) : wpage :=
+  {| wp_id := wp_id p; wp_first := wp_first p; wp_last := wp_last p; wp_off := wp_off p; wp_dirty := wp_dirty p;
+     wp_next := wp_next p; wp_data := wp_data p; wp_disk := v |}.
 
 Fixpoint upd_nth {A} (i : nat) (f : A -> A) (l : list A) : list A :=
   match l, i with
@@ -88,9 +94,9 @@ Definition commit_event (b : wbuf) (id : Z) : wbuf :=
       let ps1 := upd_nth i (fun p =>
                    if (wp_off p =? 0)%nat
                    then {| wp_id := wp_id p; wp_first := id; wp_last := id; wp_off := off; wp_dirty := wp_dirty p;
-                           wp_next := wp_next p; wp_data := wp_data p |}
+                           wp_next := wp_next p; wp_data := wp_data p; wp_disk := wp_disk p |}
                    else {| wp_id := wp_id p; wp_first := wp_first p; wp_last := id; wp_off := wp_off p; wp_dirty := wp_dirty p;
-                           wp_next := wp_next p; wp_data := wp_data p |}) (b_pages b) in
+                           wp_next := wp_next p; wp_data := wp_data p; wp_disk := wp_disk p |}) (b_pages b) in
       let ps2 := mark_from i ps1 in
       let ps3 := if (i =? 1)%nat then upd_nth 0 (set_dirty true) ps2 else ps2 in     (* head not yet linked to the event's page *)
       {| b_pages := ps3; b_avail := b_avail b; b_hdr := None; b_count := b_count b |}
@@ -199,7 +205,7 @@ Definition do_flush (s : wst) (fo : foutcome) : wst * fresult :=
                                     | None => Some (wp_id first, wp_off first, wp_first first) end;
                           q_tail := (wp_id last, endOff, ws_evId s);
                           q_inuse := q_inuse r + allocated |} in
-          let clean := map (set_dirty false) range2 ++ rest in
+          let clean := map (fun p => set_disk (Some (wp_data p)) (set_dirty false p)) range2 ++ rest in
           let k := reset_end clean O (option_map fst (b_hdr b)) n1 in
           let b' := {| b_pages := skipn k clean;
                        b_avail := b_avail b + sum_data (firstn k clean);
